@@ -6,5 +6,6 @@ export CARGO_NET_OFFLINE=true
 mkdir -p runs evidence
 [ -f harness/Cargo.lock ] || cp "${VERIF_REPO:-/repo}/Cargo.lock" harness/Cargo.lock
 (cd harness && cargo build --offline --release --workspace 2>&1 | tail -3)
+if ls harness_hydro/hv_* >/dev/null 2>&1; then [ -f harness_hydro/Cargo.lock ] || cp "${VERIF_REPO:-/repo}/Cargo.lock" harness_hydro/Cargo.lock; (cd harness_hydro && cargo build --offline --release --workspace 2>&1 | tail -3); fi
 (cd spec/MergeSource && timeout 300 tlc -workers 4 -metadir ../../runs/setup_tlc -cleanup -noGenerateSpecTE -config MergeSourceImpl.cfg MergeSourceImpl.tla | grep -E "No error|Error" )
 echo "setup ok"
